@@ -1,6 +1,9 @@
 """C07 - refactoring results are self-consistent and touch nothing until applied.
 
-Every case = one scratch project under /tmp/scratch-c07c06/, one refactoring request on it.
+Every case = one scratch world under /tmp/scratch-c07c06/, one refactoring request on it.  A world is
+a directory W with the files, a Project path inside it (W itself, W/proj, W/ws/proj) and the
+directories that are on sys.path: the files a refactoring changes and moves can lie inside the
+project, below it, outside of it (gen/refactor_layouts.py).
 
 Streams
   render     parso tree + node->str map of every ChangedFile, dumped; Lean `render` must equal
@@ -11,8 +14,12 @@ Streams
   fs         directory snapshots before / after inspection / after apply vs the Lean FS machine
   until      Script.extract_variable's until-position prologue vs Lean `untilPos`
   oracle-*   the property itself on the real code, independent of the model:
-             patch (own unified-diff parser/applier on get_diff() text), names (files named by the
-             diff = get_changed_files/get_renames), inspect (nothing on disk changes before
+             patch (own unified-diff parser/applier on get_diff() text), names (every `---`/`+++`
+             header and `rename from/to` line of get_diff(), read back against the project path, names
+             exactly the keys of get_changed_files() / the pairs of get_renames(); after apply() every
+             `+++` name is a file that holds get_new_code() and every renamed-away `---` name is gone),
+             layout (which of inside/outside the project x changed/moved/changed+moved a case covers),
+             inspect (nothing on disk changes before
              apply), apply (disk afterwards = announced contents and names, nothing else),
              bytes (text outside the rewritten nodes preserved, by absolute offsets; the text in front of
              each rewritten node - its parso prefix: line break, comment / blank lines, indentation - must
@@ -28,7 +35,7 @@ import traceback
 
 import common
 from common import short
-from gen import refactor_gen, refactor_shapes
+from gen import refactor_gen, refactor_layouts, refactor_shapes
 
 MODELS = ['Diff', 'RefactorFS', 'Tree']
 MANIFEST = dict(
@@ -44,7 +51,15 @@ MANIFEST = dict(
          'statement = F3) and none at all once the range check exists. Tie: translator constants + '
          'correspondence on real refactorings (rename, inline, extract_variable, extract_function) over '
          'generated projects with LF/CRLF/CR endings, with/without final newline, unicode identifiers, '
-         'module renames; direct oracle with an independent patch applier, directory snapshots and a byte-level '
+         'module renames; worlds on disk whose files lie inside the Project path, below it, outside of it (sibling '
+         'directories on sys_path / added_sys_path, one with the project name as a string prefix) with modules, '
+         'packages, nested packages and namespace packages over two roots that are changed only, moved only, '
+         'changed AND moved (modules that refer to themselves / their own package); the `---`/`+++` header '
+         'computation of ChangedFile.get_diff and the rename lines of Refactoring.get_diff are transcribed with '
+         'the attribute names read from the source (diff_header_from / diff_header_to / '
+         'announced_name_holds_contents / rename_lines_name_renames: a from/to mix-up breaks the build); '
+         'direct oracle with an independent patch applier, every header and rename line of get_diff() read back '
+         'against the project path and compared with get_changed_files() / get_renames() / the disk after apply(), directory snapshots and a byte-level '
          'check that the text between and in front of the rewritten nodes (line breaks, comment and blank lines, '
          'indentation, LF/CRLF/CR) is preserved with nothing but whole inserted lines.',
     note='Modelled not verified: difflib (parameter: opcode list, Valid decided per run), parso tree construction, '
@@ -456,16 +471,96 @@ def sandbox_quirk(e):
     return False
 
 
-HOW = ("write input.files under an empty directory D; s = jedi.Script(path=D/<file>, project=jedi.Project(D)); "
-       "r = s.<kind>(line, column, **args); compare r.get_diff(), r.get_changed_files()[p].get_new_code(), "
-       "the directory before/after r.apply()  (or: ./check C07 --replay <this file>)")
+HOW = ("write input.files under an empty directory W; P = W/<input.project>; project = jedi.Project(P, "
+       "sys_path=[W/d for d in input.sys_path], added_sys_path=[W/d for d in input.added_sys_path], "
+       "smart_sys_path=False); s = jedi.Script(path=W/<input.file>, project=project); "
+       "r = s.<kind>(line, column, **args); compare r.get_diff() (every `--- a`/`+++ b` header and "
+       "`rename from/to` line joined to P), r.get_changed_files()[p].get_new_code(), r.get_renames(), "
+       "the directory W before/after r.apply()  (or: ./check C07 --replay <this file>)")
 
 
-class Case:
-    pass
+class RecCtx:
+    """records what run_case reports, so that cases can run in worker processes
+    (common.parallel_map) and be fed to the real Ctx in order afterwards"""
+
+    def __init__(self):
+        self.events = []
+        self.violations = []
+
+    def count(self, stream, case_key=None, nontrivial=True, sample=None, bucket=None):
+        self.events.append(['count', stream, case_key, nontrivial, sample, bucket])
+
+    def fail(self, stream, what, case, expected=None, observed=None, kind='property', how=None):
+        self.events.append(['fail', stream, what, case, expected, observed, kind, how])
+
+    def tie_broken(self, name, detail=''):
+        self.events.append(['tie', name, detail])
 
 
-def run_case(ctx, n, files, main_rel, req, do_apply, reqs, pending, verbose=False):
+def feed(ctx, events):
+    for e in events:
+        if e[0] == 'count':
+            key = e[2]
+            if isinstance(key, list):
+                key = tuple(key)
+            ctx.count(e[1], key, nontrivial=e[3], sample=e[4], bucket=e[5])
+        elif e[0] == 'fail':
+            ctx.fail(e[1], e[2], e[3], expected=e[4], observed=e[5], kind=e[6], how=e[7])
+        else:
+            ctx.tie_broken(e[1], e[2])
+
+
+def inside(path, base):
+    """component-wise: is `path` the directory `base` or below it"""
+    path, base = os.path.normpath(str(path)), os.path.normpath(str(base))
+    return path == base or path.startswith(base.rstrip('/') + '/')
+
+
+def resolve(shown, project_path):
+    """a name as the diff shows it -> the file it names: relative names are relative to the project,
+    absolute names are themselves"""
+    return os.path.normpath(os.path.join(project_path, shown))
+
+
+def moved_to(path, renames):
+    """where the renames (absolute pairs, in order) leave `path`, component-wise"""
+    path = os.path.normpath(str(path))
+    for a, b in renames:
+        a, b = os.path.normpath(str(a)), os.path.normpath(str(b))
+        if path == a or path.startswith(a + '/'):
+            path = b + path[len(a):]
+    return path
+
+
+_RENAME = re.compile(r'rename from (.*)\nrename to (.*)\n')
+
+
+def split_whole_diff(text):
+    """Refactoring.get_diff() -> ([(from, to)] of the leading `rename` lines, the rest of the text,
+    [(old, new)] of every file section in the rest: a `--- a` line, a `+++ b` line, a `@@` line)"""
+    pairs, pos = [], 0
+    while True:
+        m = _RENAME.match(text, pos)
+        if not m:
+            break
+        pairs.append((m.group(1), m.group(2)))
+        pos = m.end()
+    rest = text[pos:]
+    lines = split_keepends(rest)
+    heads = []
+    for i in range(len(lines) - 2):
+        a, b, c = lines[i:i + 3]
+        if a.startswith('--- ') and b.startswith('+++ ') and c.startswith('@@ ') \
+                and a.endswith('\n') and b.endswith('\n') and not a.endswith('\r\n'):
+            heads.append((a[4:-1], b[4:-1]))
+    return pairs, rest, heads
+
+
+def layout_of(case):
+    return case.get('project', ''), case.get('sys_path', ['']), case.get('added_sys_path', [])
+
+
+def run_case(ctx, n, files, main_rel, req, do_apply, reqs, pending, verbose=False, layout=None):
     """runs one request on the real code, evaluates the direct oracle, queues model requests"""
     import jedi
     from jedi.api.exceptions import RefactoringError
@@ -473,11 +568,33 @@ def run_case(ctx, n, files, main_rel, req, do_apply, reqs, pending, verbose=Fals
     shutil.rmtree(root, ignore_errors=True)
     os.makedirs(root)
     case = {'files': files, 'file': req.get('file', main_rel), 'request': req, 'apply': do_apply}
+    if layout:
+        case.update({k: layout[k] for k in ('project', 'sys_path', 'added_sys_path') if k in layout})
+    proj_rel, sys_rel, added_rel = layout_of(case)
+    P = os.path.normpath(os.path.join(root, proj_rel))
+
+    def mask(x):
+        """scratch directory -> <W> in everything that is reported"""
+        if isinstance(x, str):
+            return x.replace(root, '<W>')
+        if isinstance(x, (list, tuple)):
+            return [mask(y) for y in x]
+        if isinstance(x, dict):
+            return {mask(k): mask(v) for k, v in x.items()}
+        return x
+
+    def rel_w(p):
+        return os.path.relpath(str(p), root)
     try:
         write_files(root, files)
+        os.makedirs(P, exist_ok=True)
+        for d in list(sys_rel) + list(added_rel):
+            os.makedirs(os.path.join(root, d), exist_ok=True)
         snap0 = snapshot(root)
         target = os.path.join(root, case['file'])
-        project = jedi.Project(root, sys_path=[root], smart_sys_path=False)
+        project = jedi.Project(P, sys_path=[os.path.normpath(os.path.join(root, d)) for d in sys_rel],
+                               added_sys_path=[os.path.normpath(os.path.join(root, d)) for d in added_rel],
+                               smart_sys_path=False)
         try:
             script = jedi.Script(path=target, project=project)
             ref = call_refactoring(script, req)
@@ -493,7 +610,7 @@ def run_case(ctx, n, files, main_rel, req, do_apply, reqs, pending, verbose=Fals
             ctx.count('oracle-exceptions', (files[case['file']], json.dumps(req, sort_keys=True)), bucket=cls)
             ctx.fail('oracle-exceptions', 'refactoring request raised %s (only RefactoringError / ValueError '
                      'are allowed)' % cls, dict(case, exception=cls), expected=list(ALLOWED_EXC),
-                     observed={'class': cls, 'site': site, 'message': str(e)[:200]}, how=HOW)
+                     observed={'class': cls, 'site': site, 'message': mask(str(e)[:200])}, how=HOW)
             if verbose:
                 traceback.print_exc()
             return
@@ -521,13 +638,25 @@ def run_case(ctx, n, files, main_rel, req, do_apply, reqs, pending, verbose=Fals
                          observed=diff_snap(snap0, snap1), how=HOW)
             return
         # --- inspection ------------------------------------------------------------------
-        changed = ref.get_changed_files()
-        renames = ref.get_renames()
-        whole_diff = ref.get_diff()
-        info = []
-        for path, cf in changed.items():
-            info.append({'path': path, 'cf': cf, 'new': cf.get_new_code(), 'diff': cf.get_diff(),
-                         'old': cf._module_node.get_code()})
+        try:
+            changed = ref.get_changed_files()
+            renames = ref.get_renames()
+            whole_diff = ref.get_diff()
+            info = []
+            for path, cf in changed.items():
+                info.append({'path': path, 'cf': cf, 'new': cf.get_new_code(), 'diff': cf.get_diff(),
+                             'old': cf._module_node.get_code()})
+        except Exception as e:
+            cls, site = common.exc_site(e)
+            if sandbox_quirk(e):
+                ctx.count('raised-sandbox', None, nontrivial=False, bucket='%s@%s' % (cls, site))
+                return
+            ctx.fail('oracle-patch', 'inspecting the refactoring result (get_changed_files / get_renames / '
+                     'get_diff / get_new_code) raised %s: there is no diff' % cls, dict(case, exception=cls),
+                     observed={'class': cls, 'site': site, 'message': mask(str(e)[:200])}, how=HOW)
+            if verbose:
+                traceback.print_exc()
+            return
         snap1 = snapshot(root)
         ctx.count('oracle-inspect', (files[case['file']], json.dumps(req, sort_keys=True)), nontrivial=bool(info),
                   bucket=req['kind'])
@@ -535,20 +664,21 @@ def run_case(ctx, n, files, main_rel, req, do_apply, reqs, pending, verbose=Fals
             ctx.fail('oracle-inspect', 'get_diff/get_new_code/get_changed_files/get_renames changed the disk',
                      case, observed=diff_snap(snap0, snap1), how=HOW)
         if verbose:
-            print('renames:', renames)
-            print('diff:\n' + whole_diff)
+            print('project:', mask(P), ' renames:', mask([(str(a), str(b)) for a, b in renames]))
+            print('diff:\n' + mask(whole_diff))
         # --- per file: names, bytes, patch ---------------------------------------------------
-        rel_renames = [(os.path.relpath(str(a), root), os.path.relpath(str(b), root)) for a, b in renames]
-        headers = []
+        abs_renames = [(os.path.normpath(str(a)), os.path.normpath(str(b))) for a, b in renames]
+        rel_renames = [(rel_w(a), rel_w(b)) for a, b in abs_renames]
+        sections = []       # (old header, new header, rel of the changed file, its new code)
         for it in info:
             path, cf = it['path'], it['cf']
-            rel = os.path.relpath(str(path), root) if path is not None else None
+            rel = rel_w(path) if path is not None else None
             it['rel'] = rel
             key = (files.get(rel, ''), json.dumps(req, sort_keys=True))
             fcase = dict(case, changed_file=rel)
             if rel not in snap0:
                 ctx.fail('oracle-names', 'get_changed_files() names a path that is not a file of the project',
-                         fcase, observed={'path': str(path)}, how=HOW)
+                         fcase, observed={'path': mask(str(path))}, how=HOW)
                 continue
             if snap0[rel] != it['old']:
                 ctx.fail('oracle-names', 'the ChangedFile for this path was computed from a different text '
@@ -559,10 +689,8 @@ def run_case(ctx, n, files, main_rel, req, do_apply, reqs, pending, verbose=Fals
                             key=lambda x: (x[0][0], -x[0][1]))
             expect, pos = [], 0
             for (s, e), text in mapped:
-                if s < pos or (s == pos and e <= pos and expect and False):
-                    continue        # inside an already replaced node
                 if s < pos:
-                    continue
+                    continue        # inside an already replaced node
                 expect.append(it['old'][pos:s]); expect.append(text); pos = e
             expect.append(it['old'][pos:])
             ctx.count('oracle-bytes', key, nontrivial=bool(mapped), bucket='nodes=%d' % min(len(mapped), 5))
@@ -614,7 +742,7 @@ def run_case(ctx, n, files, main_rel, req, do_apply, reqs, pending, verbose=Fals
             old_l, new_l = norm_lines(it['old']), norm_lines(it['new'])
             ctx.count('oracle-patch', key, nontrivial=it['old'] != it['new'],
                       bucket='%s/%s' % (req['kind'], eol_kind(it['old'])),
-                      sample={'request': req, 'diff': it['diff'][:300]})
+                      sample={'request': req, 'diff': mask(it['diff'][:300])})
             try:
                 parsed = parse_unified(it['diff'])
                 if it['old'] == it['new']:
@@ -627,40 +755,94 @@ def run_case(ctx, n, files, main_rel, req, do_apply, reqs, pending, verbose=Fals
                     if got != new_l:
                         ctx.fail('oracle-patch', 'applying get_diff() to the old file does not give '
                                  'get_new_code()', fcase, expected=new_l, observed=got, how=HOW)
-                    to_rel = rel
-                    for a, b in rel_renames:
-                        if to_rel == a or to_rel.startswith(a + '/'):
-                            to_rel = b + to_rel[len(a):]
-                    headers.append((parsed[0]['old'], parsed[0]['new']))
-                    if parsed[0]['old'] != rel or parsed[0]['new'] != to_rel:
+                    # the names: `--- a` is this file, `+++ b` is where the renames of the same refactoring
+                    # leave it; both read back against the project path; a file inside the project is named
+                    # relative to it
+                    from_abs = os.path.normpath(str(path))
+                    to_abs = moved_to(from_abs, abs_renames)
+                    h_old, h_new = parsed[0]['old'], parsed[0]['new']
+                    sections.append((h_old, h_new, rel, it['new']))
+                    loc = 'inside' if inside(from_abs, P) else 'outside'
+                    ctx.count('oracle-names', key, nontrivial=to_abs != from_abs or loc == 'outside',
+                              bucket='%s/%s' % (loc, 'changed+moved' if to_abs != from_abs else 'changed'))
+                    bad = []
+                    if resolve(h_old, P) != from_abs:
+                        bad.append('`--- %s` does not name the changed file' % mask(h_old))
+                    if resolve(h_new, P) != to_abs:
+                        bad.append('`+++ %s` does not name the file after the renames' % mask(h_new))
+                    if inside(from_abs, P) and os.path.isabs(h_old) or inside(to_abs, P) and os.path.isabs(h_new):
+                        bad.append('a file inside the project is not named relative to it')
+                    if bad:
                         ctx.fail('oracle-names', 'diff header does not name the changed file (and its name '
-                                 'after the renames)', fcase, expected=[rel, to_rel],
-                                 observed=[parsed[0]['old'], parsed[0]['new']], how=HOW)
+                                 'after the renames), read against the project path', dict(fcase, where=loc),
+                                 expected=mask({'---': from_abs, '+++': to_abs, 'project': P}),
+                                 observed=mask({'---': h_old, '+++': h_new, 'problems': bad}), how=HOW)
             except PatchError as e:
                 ctx.fail('oracle-patch', 'get_diff() is not a well-formed unified diff for this file: %s' % e,
-                         fcase, observed=it['diff'], how=HOW)
+                         fcase, observed=mask(it['diff']), how=HOW)
             # model requests
             tree, ids = dump_tree(cf._module_node)
             m = [[ids[id(nd)], s] for nd, s in cf._node_to_str_map.items()]
             it['tree'], it['map'] = tree, m
             reqs.append({'op': 'render', 'tree': tree, 'map': m})
-            pending.append(('render', fcase, it))
+            pending.append(('render', fcase, {'old': it['old'], 'new': it['new']}))
             groups = [[list(o) for o in g] for g in
                       difflib.SequenceMatcher(None, old_l, new_l).get_grouped_opcodes(3)]
-            reqs.append({'op': 'diff', 'project': parts(root), 'from': parts(path),
+            reqs.append({'op': 'diff', 'project': parts(P), 'from': parts(path),
                          'renames': [[parts(a), parts(b)] for a, b in renames],
                          'old': it['old'], 'new': it['new'], 'groups': groups})
-            pending.append(('diff', fcase, it))
-        # whole diff = rename lines + the file diffs, in order
-        exp_whole = ''.join('rename from %s\nrename to %s\n' % ab for ab in rel_renames) \
-            + ''.join(it['diff'] for it in info)
-        if whole_diff != exp_whole:
+            pending.append(('diff', fcase, {'old': it['old'], 'new': it['new'], 'diff': it['diff']}))
+        # --- the whole diff, read on its own: rename lines, then one section per changed file -------
+        pairs, rest, heads = split_whole_diff(whole_diff)
+        file_diffs = ''.join(it['diff'] for it in info)
+        if rest != file_diffs:
             ctx.fail('oracle-names', 'Refactoring.get_diff() is not the rename list followed by the diffs of '
-                     'get_changed_files()', case, expected=exp_whole, observed=whole_diff, how=HOW)
+                     'get_changed_files()', case, expected=mask(file_diffs), observed=mask(whole_diff), how=HOW)
+        got_pairs = [(resolve(a, P), resolve(b, P)) for a, b in pairs]
+        rel_form = all(not (os.path.isabs(x) and inside(resolve(x, P), P)) for pr in pairs for x in pr)
+        if sorted(got_pairs) != sorted(abs_renames) or not rel_form:
+            ctx.fail('oracle-names', 'the `rename from/to` lines of get_diff(), read against the project path, '
+                     'are not the pairs of get_renames()', case, expected=mask(abs_renames),
+                     observed=mask({'lines': pairs, 'resolved': got_pairs}), how=HOW)
+        touched = sorted(os.path.normpath(str(it['path'])) for it in info
+                         if it['path'] is not None and it['old'] != it['new'])
+        if sorted(resolve(a, P) for a, _ in heads) != touched:
+            ctx.fail('oracle-names', 'the files named by the `---` headers of get_diff() are not the keys of '
+                     'get_changed_files()', case, expected=mask(touched), observed=mask(heads), how=HOW)
         for a, b in rel_renames:
             if not (a in snap0 or any(k.startswith(a + '/') for k in snap0)):
                 ctx.fail('oracle-names', 'get_renames() names a source that does not exist', case,
                          observed=[a, b], how=HOW)
+        # a rename whose target is taken (a file, or a directory with files): what the diff announces
+        # cannot all come true; the input class is named so that reports about it can be told apart
+        taken = [[a, b] for a, b in rel_renames
+                 if a != b and (b in snap0 or any(k.startswith(b + '/') for k in snap0))]
+        acase = dict(case, shape='rename-target-exists', taken=taken) if taken else case
+        news = [resolve(h_new, P) for _, h_new, _, _ in sections]
+        twice = sorted({mask(x) for x in news if news.count(x) > 1})
+        if twice:
+            ctx.fail('oracle-names', 'get_diff() announces different contents for one file name: two `+++` headers '
+                     'name the same file', acase, expected='one section per name',
+                     observed={'+++': twice, 'diff': mask(whole_diff)}, how=HOW)
+        # which part of the domain this case is in: per file of the world
+        classes = set()
+        changed_rels = {it.get('rel') for it in info if it.get('rel') in snap0 and it['old'] != it['new']}
+        for k in snap0:
+            a = os.path.join(root, k)
+            mv = moved_to(a, abs_renames) != os.path.normpath(a)
+            ch = k in changed_rels
+            if mv or ch:
+                classes.add('%s/%s' % ('inside' if inside(a, P) else 'outside',
+                                       'changed+moved' if mv and ch else 'moved' if mv else 'changed'))
+        for c in sorted(classes) or ['nothing-touched']:
+            ctx.count('oracle-layout', (json.dumps(files, sort_keys=True), json.dumps(req, sort_keys=True), c),
+                      nontrivial=c != 'nothing-touched', bucket=c)
+        ctx.count('oracle-layout-world', None, nontrivial=False,
+                  bucket='project=%s renames=%d%s' % (proj_rel or '.', len(renames),
+                                                      ' added_sys_path' if added_rel else ''))
+        reqs.append({'op': 'renames', 'project': parts(P),
+                     'renames': [[parts(a), parts(b)] for a, b in renames]})
+        pending.append(('renames', case, {'text': whole_diff[:len(whole_diff) - len(rest)]}))
         # --- apply --------------------------------------------------------------------------
         if not do_apply:
             return
@@ -671,8 +853,8 @@ def run_case(ctx, n, files, main_rel, req, do_apply, reqs, pending, verbose=Fals
             aerr = e
         except Exception as e:
             cls, site = common.exc_site(e)
-            ctx.fail('oracle-apply', 'apply() raised %s' % cls, case,
-                     observed={'class': cls, 'site': site, 'message': str(e)[:200],
+            ctx.fail('oracle-apply', 'apply() raised %s' % cls, acase,
+                     observed={'class': cls, 'site': site, 'message': mask(str(e)[:200]),
                                'disk': diff_snap(snap0, snapshot(root))}, how=HOW)
             return
         expected = dict(snap0)
@@ -685,15 +867,34 @@ def run_case(ctx, n, files, main_rel, req, do_apply, reqs, pending, verbose=Fals
                     expected[b + k[len(a):]] = expected.pop(k)
         snap2 = snapshot(root)
         ctx.count('oracle-apply', (json.dumps(files, sort_keys=True), json.dumps(req, sort_keys=True)),
-                  nontrivial=snap2 != snap0, bucket=req['kind'] + ('/renames' if renames else ''),
+                  nontrivial=snap2 != snap0,
+                  bucket=req['kind'] + ('/renames' if renames else '') + ('/target-exists' if taken else ''),
                   sample={'request': req, 'renames': rel_renames, 'changed': [it.get('rel') for it in info]})
         if aerr is not None:
             ctx.fail('oracle-apply', 'apply() refused on a project with paths', case,
-                     observed={'message': str(aerr)}, how=HOW)
+                     observed={'message': mask(str(aerr))}, how=HOW)
         elif snap2 != expected:
             ctx.fail('oracle-apply', 'after apply() the files do not hold exactly the announced contents '
-                     'and names', case, expected=diff_snap(snap0, expected), observed=diff_snap(snap0, snap2),
+                     'and names', acase, expected=diff_snap(snap0, expected), observed=diff_snap(snap0, snap2),
                      how=HOW)
+        # the diff as a client reads it: every `+++ b` is now a file holding the announced text, every
+        # `--- a` that differs from its `+++ b` is gone
+        if aerr is None:
+            for h_old, h_new, rel, new_code in sections:
+                a, b = resolve(h_old, P), resolve(h_new, P)
+                problems = []
+                if snap2.get(rel_w(b)) is None:
+                    problems.append('there is no file `%s` after apply()' % mask(b))
+                elif snap2[rel_w(b)] != new_code:
+                    problems.append('`%s` does not hold get_new_code() after apply()' % mask(b))
+                if a != b and rel_w(a) in snap2:
+                    problems.append('`%s` still exists after apply()' % mask(a))
+                if problems:
+                    ctx.fail('oracle-apply', 'after apply() the names announced by the `---`/`+++` headers of '
+                             'get_diff() are not the files that hold the announced contents',
+                             dict(acase, changed_file=rel),
+                             expected=mask({'+++': b, 'holds': new_code, 'gone': a if a != b else None}),
+                             observed={'problems': problems, 'files_now': sorted(snap2)}, how=HOW)
         query = sorted(set(snap0) | set(snap2) | set(expected))
         if all('tree' in it for it in info):
             reqs.append({'op': 'fs', 'req': 'apply', 'linesep': os.linesep,
@@ -705,6 +906,10 @@ def run_case(ctx, n, files, main_rel, req, do_apply, reqs, pending, verbose=Fals
             pending.append(('fs', case, {'query': query, 'snap': snap2}))
     finally:
         shutil.rmtree(root, ignore_errors=True)
+        try:
+            os.rmdir(os.path.dirname(root))
+        except OSError:
+            pass
 
 
 def eol_kind(s):
@@ -723,25 +928,80 @@ def diff_snap(a, b):
 # ------------------------------------------------------------------ fixed probes
 
 def fixed_cases():
-    """(files, main, request, apply) kept alive every run: DESIGN section 6 F3 and edge shapes"""
+    """(files, main, request, apply, layout) kept alive every run: DESIGN section 6 F3 and edge shapes"""
     out = []
     f3 = {'mod.py': 'x = 1 + 2\n'}
     for ul in (5, -3):
         out.append((f3, 'mod.py', {'kind': 'extract_variable', 'line': 1, 'column': 4, 'new_name': 'y',
-                                   'until_line': ul, 'until_column': None}, False))
+                                   'until_line': ul, 'until_column': None}, False, None))
         out.append((f3, 'mod.py', {'kind': 'extract_function', 'line': 1, 'column': 4, 'new_name': 'y',
-                                   'until_line': ul, 'until_column': None}, False))
-    out.append(({'mod.py': 'def f():\n    return x\nx = 1'}, 'mod.py', {'kind': 'inline', 'line': 3, 'column': 0}, True))
-    out.append(({'mod.py': 'x = 1\r\ny = x\r\n'}, 'mod.py', {'kind': 'rename', 'line': 1, 'column': 0, 'new_name': 'x'}, True))
-    out.append(({'mod.py': ''}, 'mod.py', {'kind': 'rename', 'line': 1, 'column': 0, 'new_name': 'x'}, True))
-    out.append(({'mod.py': 'a = 1\rb = a\r'}, 'mod.py', {'kind': 'inline', 'line': 1, 'column': 0}, True))
+                                   'until_line': ul, 'until_column': None}, False, None))
+    out.append(({'mod.py': 'def f():\n    return x\nx = 1'}, 'mod.py', {'kind': 'inline', 'line': 3, 'column': 0}, True, None))
+    out.append(({'mod.py': 'x = 1\r\ny = x\r\n'}, 'mod.py', {'kind': 'rename', 'line': 1, 'column': 0, 'new_name': 'x'}, True, None))
+    out.append(({'mod.py': ''}, 'mod.py', {'kind': 'rename', 'line': 1, 'column': 0, 'new_name': 'x'}, True, None))
+    out.append(({'mod.py': 'a = 1\rb = a\r'}, 'mod.py', {'kind': 'inline', 'line': 1, 'column': 0}, True, None))
     # a package whose name is a string prefix of a sibling module that is changed too
     out.append(({'pkg/__init__.py': 'top = 1\n', 'pkgextra.py': 'import pkg\nz = pkg.top\n', 'main.py': 'import pkg\nimport pkgextra\n'},
-                'main.py', {'kind': 'rename', 'file': 'main.py', 'line': 1, 'column': 7, 'new_name': 'pk'}, True))
+                'main.py', {'kind': 'rename', 'file': 'main.py', 'line': 1, 'column': 7, 'new_name': 'pk'}, True, None))
+    # a module / a package renamed onto an existing one (known finding C07-rename-target-exists)
+    out.append(({'mod.py': 'import mod\nv = 1\n', 'other.py': 'import mod\nk = mod.v\n'}, 'other.py',
+                {'kind': 'rename', 'file': 'other.py', 'line': 1, 'column': 8, 'new_name': 'other'}, True, None))
+    out.append(({'pkg/__init__.py': 'v = 1\n', 'pk/__init__.py': 'w = 2\n', 'main.py': 'import pkg\nimport pk\nk = pkg.v\n'},
+                'main.py', {'kind': 'rename', 'file': 'main.py', 'line': 1, 'column': 8, 'new_name': 'pk'}, True, None))
     return out
 
 
+def place(files, main, req, prefix, project):
+    """the same project, but every file below `prefix` and the jedi Project at `project`"""
+    req = dict(req)
+    if 'file' in req:
+        req['file'] = prefix + '/' + req['file']
+    return ({prefix + '/' + k: v for k, v in files.items()}, prefix + '/' + main, req,
+            dict(project=project, sys_path=[project, prefix], added_sys_path=[]))
+
+
+def world_items(ctx):
+    """cases on generated worlds (gen/refactor_layouts.py): the whole small-scope grid of
+    project x kind of importable thing x where it lives x self reference x sys.path mode in the
+    thorough tier, a stratified sample of it in the quick tier"""
+    rng = ctx.subrng('worlds')
+    cells = refactor_layouts.grid()
+    items = []
+    if ctx.quick:
+        # every (where, selfref) stratum is hit; the other coordinates are sampled
+        strata = {}
+        for c in cells:
+            strata.setdefault((c['where'], c['selfref'], c['project'] == ''), []).append(c)
+        chosen = []
+        for k in sorted(strata, key=repr):
+            chosen += rng.sample(strata[k], min(len(strata[k]), 6 if k[0] in ('out', 'outprefix') else 3))
+        per_world, variants = 3, 1
+    else:
+        chosen, per_world, variants = cells, 0, 3
+    for c in chosen:
+        for v in range(variants):
+            w = refactor_layouts.make_world(rng, **c)
+            lay = dict(project=w['project'], sys_path=w['sys_path'], added_sys_path=w['added_sys_path'])
+            for req in refactor_layouts.requests_for(rng, w, per_world, exhaustive=not ctx.quick and v == 0):
+                items.append({'files': w['files'], 'file': req['file'], 'request': req,
+                              'apply': rng.random() < 0.7, 'layout': lay})
+            if not ctx.quick and v > 0:
+                for req in refactor_layouts.requests_for(rng, w, 4):
+                    items.append({'files': w['files'], 'file': req['file'], 'request': req,
+                                  'apply': rng.random() < 0.7, 'layout': lay})
+    return items
+
+
 # ------------------------------------------------------------------ driver
+
+def work(item):
+    """one case in a worker process (or in-process) -> what it reported, JSON-able"""
+    rec = RecCtx()
+    reqs, pending = [], []
+    run_case(rec, item['n'], item['files'], item['file'], item['request'], item['apply'], reqs, pending,
+             layout=item.get('layout'))
+    return {'events': rec.events, 'reqs': reqs, 'pending': [list(p) for p in pending]}
+
 
 def compare(ctx, reqs, pending, answers):
     for (kind, case, it), req, ans in zip(pending, reqs, answers):
@@ -754,13 +1014,19 @@ def compare(ctx, reqs, pending, answers):
                 ctx.tie_broken('correspondence:render',
                                short({'case': case, 'model': ans['render'], 'impl': it['new']}, 1500))
         elif kind == 'diff':
-            ctx.count('diff', key, nontrivial=it['old'] != it['new'], bucket=eol_kind(it['old']))
+            outside = req['from'][:len(req['project'])] != req['project']
+            ctx.count('diff', key, nontrivial=it['old'] != it['new'],
+                      bucket=eol_kind(it['old']) + ('/outside-project' if outside else ''))
             want_b = norm_lines(it['new'])
             ok = ans.get('valid') is True and ans.get('text') == it['diff'] and ans.get('applied') == want_b
             if not ok:
                 ctx.tie_broken('correspondence:diff', short(
                     {'case': case, 'valid': ans.get('valid'), 'model_text': ans.get('text'),
                      'impl_text': it['diff'], 'applied_ok': ans.get('applied') == want_b}, 2500))
+        elif kind == 'renames':
+            ctx.count('renames', key, nontrivial=bool(req['renames']), bucket='renames=%d' % len(req['renames']))
+            if ans != it['text']:
+                ctx.tie_broken('correspondence:renames', short({'case': case, 'model': ans, 'impl': it['text']}, 1500))
         elif kind == 'fs':
             ctx.count('fs', key, nontrivial=True, bucket='renames=%d' % len(req['renames']))
             model = {q: c for q, (_, c) in zip(it['query'], ans['files']) if c is not None}
@@ -775,37 +1041,70 @@ def compare(ctx, reqs, pending, answers):
                                                               'impl': 'no IndexError'}))
 
 
+def run_driver_chunks(reqs, jobs=4):
+    """the interpreted driver is a single process: a medium-sized request list is split over a few"""
+    if len(reqs) >= 4000 or len(reqs) < 600:
+        return common.run_driver_parallel('C07', reqs)
+    from concurrent.futures import ThreadPoolExecutor
+    size = (len(reqs) + jobs - 1) // jobs
+    chunks = [reqs[i:i + size] for i in range(0, len(reqs), size)]
+    with ThreadPoolExecutor(len(chunks)) as ex:
+        got = list(ex.map(lambda c: common.run_driver('C07', c), chunks))
+    return [x for g in got for x in g]
+
+
 def run(ctx):
     load_own_known(ctx, 'C07')
     os.makedirs(SCRATCH, exist_ok=True)
-    reqs, pending = [], []
-    n = 0
+    items = []
+
+    def add(files, main, req, ap, layout=None):
+        items.append({'files': files, 'file': main, 'request': req, 'apply': ap, 'layout': layout})
+    for files, main, req, ap, layout in fixed_cases():
+        add(files, main, req, ap, layout)
+    corpus = os.path.join(common.CORPUS_DIR, 'C07')
+    if os.path.isdir(corpus):
+        for f in sorted(os.listdir(corpus)):
+            with open(os.path.join(corpus, f), encoding='utf-8') as fh:
+                c = json.load(fh)
+            add(c['files'], c['file'], c['request'], c.get('apply', True),
+                {k: c[k] for k in ('project', 'sys_path', 'added_sys_path') if k in c} or None)
+    rng = ctx.subrng('cases')
+    for _ in range(ctx.size(45, 1500)):
+        kind = 'multi' if rng.random() < 0.25 else 'single'
+        files, main = gen_project(rng, kind)
+        # the same files inside the project (W is the project) or, a third of the time, outside of it
+        out = rng.random() < 0.33
+        project = rng.choice(['proj', 'ws/proj'])
+        prefix = rng.choice(['lib', project + 'lib'])
+        for _ in range(ctx.size(6, 10)):
+            if kind == 'multi' and rng.random() < 0.3:
+                req = module_rename_request(rng)
+            else:
+                req = gen_request(rng, files[main], main)
+            ap = rng.random() < 0.6
+            if out:
+                f2, m2, r2, lay = place(files, main, req, prefix, project)
+                add(f2, m2, r2, ap, lay)
+            else:
+                add(files, main, req, ap)
+    items += world_items(ctx)
+    for n, it in enumerate(items, 1):
+        it['n'] = n
     try:
-        for files, main, req, ap in fixed_cases():
-            n += 1
-            run_case(ctx, n, files, main, req, ap, reqs, pending)
-        corpus = os.path.join(common.CORPUS_DIR, 'C07')
-        if os.path.isdir(corpus):
-            for f in sorted(os.listdir(corpus)):
-                with open(os.path.join(corpus, f), encoding='utf-8') as fh:
-                    c = json.load(fh)
-                n += 1
-                run_case(ctx, n, c['files'], c['file'], c['request'], c.get('apply', True), reqs, pending)
-        rng = ctx.subrng('cases')
-        for _ in range(ctx.size(45, 1500)):
-            kind = 'multi' if rng.random() < 0.25 else 'single'
-            files, main = gen_project(rng, kind)
-            for _ in range(ctx.size(6, 10)):
-                if kind == 'multi' and rng.random() < 0.3:
-                    req = module_rename_request(rng)
-                else:
-                    req = gen_request(rng, files[main], main)
-                n += 1
-                run_case(ctx, n, files, main, req, rng.random() < 0.6, reqs, pending)
+        if len(items) >= 60:
+            outs = common.parallel_map('props.c07', 'work', items)
+        else:
+            outs = [work(it) for it in items]
     finally:
         shutil.rmtree(os.path.join(SCRATCH, 'run-%d' % os.getpid()), ignore_errors=True)
+    reqs, pending = [], []
+    for o in outs:
+        feed(ctx, o['events'])
+        reqs += o['reqs']
+        pending += [tuple(p) for p in o['pending']]
     if ctx.model_ok:
-        answers = common.run_driver_parallel('C07', reqs)
+        answers = run_driver_chunks(reqs)
         compare(ctx, reqs, pending, answers)
     else:
         ctx.notes.append('model did not build: correspondence skipped, oracle only')
@@ -817,6 +1116,9 @@ def run(ctx):
         'files are UTF-8; text <-> bytes encoding is outside the model',
         'unified-diff *text* parsing is done by the harness (own parser); the Lean theorem is about the hunk '
         'structure and `diffText` is compared byte for byte with get_diff()',
+        'paths are lists of components in the model; that str(Path) / Path(str) round-trip (pathStr / partsOf) '
+        'is exercised by the diff and renames correspondence streams, not proved; pathlib.relative_to is '
+        'modelled as dropping a component-wise prefix (POSIX, no `..`)',
     ]
 
 
@@ -825,11 +1127,14 @@ def replay(ctx, payload):
     inp = payload['input']
     reqs, pending = [], []
     print('request:', inp['request'], 'on', inp['file'], 'apply =', inp.get('apply'))
+    print('project = W/%s  sys_path = %s  added_sys_path = %s' % layout_of(inp))
     for k, v in inp['files'].items():
         print('--- %s: %r' % (k, v))
-    run_case(ctx, 1, inp['files'], inp['file'], inp['request'], inp.get('apply', False), reqs, pending, verbose=True)
+    run_case(ctx, 1, inp['files'], inp['file'], inp['request'], inp.get('apply', False), reqs, pending, verbose=True,
+             layout=inp)
     for v in ctx.violations:
-        print('FAILS:', v['stream'], v['what'], short(v['observed'], 600))
+        if v is not None:
+            print('FAILS:', v['stream'], v['what'], short(v['observed'], 600))
     for k in ctx.known_hits:
         print('KNOWN-FINDING reproduced:', k)
     print('expected:', short(payload.get('expected'), 600))
